@@ -47,7 +47,7 @@ def build(case, seen):
     from sparseSpACE.GridOperation import Integration
     dim = case["dim"]
     a, b = np.array(case["a"], dtype=float), np.array(case["b"], dtype=float)
-    gs = [drive.fit_to_box(drive.driver_function(dim, case["fseed"] + 7 * i), case["a"], case["b"]) for i in range(case["nout"])]
+    gs = [drive.case_function(case, offset=7 * i) for i in range(case["nout"])]
 
     def fun(x):
         seen.add(tuple(float(t) for t in x))
@@ -166,9 +166,12 @@ def run(case):
         out.bad(sub + "/point-count-decreases", str(N))
     if any(x < 0 for x in E) or any(x < 0 for x in S):
         out.bad(sub + "/negative-error-estimate", "E=%s S=%s" % (E[:5], S[:5]))
+    # relative deviations are O(1) quantities (rounding ~1e-16 absolute); with an all-zero reference the error is the norm
+    # of the result itself, whose magnitude follows the units of integrand and box
+    _base = 1.0 if np.any(np.asarray(ref, dtype=float) != 0) else 0.0
     for k in range(len(E)):
         want = expected_error(rec["results"][k], ref, p)
-        if not abs(E[k] - want) <= 1e-12 * (1 + abs(want)):
+        if not abs(E[k] - want) <= 1e-12 * (_base + abs(want)):
             out.bad(sub + "/reported-error-not-deviation-from-reference", "evaluation %d: reported %.17g, recomputed %.17g (norm %s, reference %s, result %s)" % (
                 k, E[k], want, p, ref, rec["results"][k]))
             break
@@ -242,7 +245,7 @@ def run(case):
                     if not _stop(nev - 1):
                         out.bad(sub + "/reused-object/stop-rule/stopped-too-early", "%s: E=%s N=%s" % (tag3, E3[-2:], N3[-2:]))
                     want = expected_error(results3[-1], ref, p)
-                    if not abs(E3[-1] - want) <= 1e-12 * (1 + abs(want)):
+                    if not abs(E3[-1] - want) <= 1e-12 * (_base + abs(want)):
                         out.bad(sub + "/reused-object/reported-error-not-deviation-from-reference", "%s: %.17g vs %.17g" % (tag3, E3[-1], want))
             prev_objects = None
             continue
@@ -279,6 +282,7 @@ def run(case):
     out.cls("norm=%s" % p, "nout=%d" % case["nout"], "reference=%s" % case["refmode"], "fscale=%g" % case.get("fscale", 1.0))
     if kind == "dw":
         out.cls("version=%d" % case["version"])
+    out.cls(drive.scale_class(case))
     out.info = dict(max_history_len=len(E), max_points=N[-1] if N else 0)
     return out
 
@@ -309,6 +313,10 @@ def _strategy(kind):
             # magnitude of the integrand: the stopping rules and the relative error must not depend on it
             fscale = draw(st.sampled_from([1.0, 1.0, 1.0, 1e-4, 1e-10, 1e6]))
             ref = [r * fscale for r in ref]
+            # the same problem with the box in other units: every clause of the statement is scale free
+            sc = drive.st_boxscale(draw, dim, share=4)
+            if sc is not None:
+                ref = [r * float(np.prod(sc)) for r in ref]
             c = dict(kind=kind, dim=dim, a=a, b=b, nout=nout, fseed=fseed, reference=ref, refmode=refmode, fscale=fscale,
                      norm=draw(st.sampled_from(["inf", "inf", 2, 1])), boundary=True)
             if kind == "dw":
@@ -324,7 +332,7 @@ def _strategy(kind):
                 c["maxev"] = draw(st.integers(20, 250))
             c["triples"] = draw(st.lists(st.tuples(st.integers(0, 40), st.sampled_from([0, 1, 1, 2, 3]), st.integers(0, 40), st.sampled_from([0, 0, 1, 2, 3]),
                                                    st.integers(0, 40), st.sampled_from([0, 1, 2, 3, 4])).map(list), min_size=1, max_size=3))
-            return c
+            return drive.apply_boxscale(c, sc)
         return s()
     return strat
 
